@@ -560,16 +560,100 @@ class Evaluator:
 
     def eval_block(self, tb, b, env, depth):
         blk = tb.blocks[b]
-        env = dict(env)
-        for s in blk["stmts"]:
+        return self._eval_stmts(tb, blk, 0, dict(env), depth)
+
+    @staticmethod
+    def _noise(n):
+        mac = (n.get("sp") or {}).get("mac") or []
+        return any(m.startswith(("debug_assert", "assert")) or "log::" in m or m.startswith("log!") for m in mac)
+
+    def _ite(self, c, a, b):
+        if isinstance(c, Cond) and c.op == "true":
+            return a
+        if isinstance(c, Cond) and c.op == "false":
+            return b
+        if isinstance(a, Cond) and isinstance(b, Cond):
+            return self.logic("or", self.logic("and", c, a), self.logic("and", cnot(c), b))
+        if vkey(a) == vkey(b):
+            return a
+        return Sym("ite(%s,%s,%s)" % (ckey(c), vkey(a), vkey(b)))
+
+    def _ends_in_return(self, tb, i):
+        """expression i is a block whose last statement/tail is `return`"""
+        i, n = tb.e(i)
+        if n["k"] == "Return":
+            return True
+        if n["k"] != "Block":
+            return False
+        blk = tb.blocks[n["b"]]
+        if blk.get("expr") is not None:
+            return self._ends_in_return(tb, blk["expr"])
+        for s in reversed(blk["stmts"]):
             st = tb.stmts[s]
+            if st["k"] == "expr":
+                return self._ends_in_return(tb, st["e"])
+            return False
+        return False
+
+    def _eval_stmts(self, tb, blk, k, env, depth):
+        """statements k.. of a block, then its tail.  Early `return`s in statement
+        position, `?` statements and assignments to locals are modelled (a value
+        must never be reported as if those statements were absent)."""
+        stmts = blk["stmts"]
+        while k < len(stmts):
+            st = tb.stmts[stmts[k]]
+            k += 1
             if st["k"] == "let":
                 if st.get("init") is not None:
                     v = self.eval(tb, st["init"], env, depth)
                     self.bind(st["pat"], v, env)
-            else:
-                # expression statements: ignore debug_assert!/assert! expansions and pure calls
-                pass
+                continue
+            i, n = tb.e(st["e"])
+            if self._noise(n):
+                continue
+            if n["k"] == "Return":
+                return self.eval(tb, n["e"], env, depth) if n.get("e") is not None else Sym("unit")
+            if n["k"] == "If" and self._ends_in_return(tb, n["then"]) and (n.get("else") is None or self._ends_in_return(tb, n["else"])):
+                c = self.cond_of_if(tb, n, env, depth)
+                env_t = dict(env)
+                if isinstance(c, tuple):
+                    c, binds = c
+                    env_t.update(binds)
+                a = self.eval(tb, n["then"], env_t, depth)
+                if n.get("else") is not None:
+                    b = self.eval(tb, n["else"], dict(env), depth)
+                else:
+                    b = self._eval_stmts(tb, blk, k, dict(env), depth)
+                return self._ite(c, a, b)
+            if n["k"] == "Match":
+                si, sn = tb.e(n["scrut"])
+                fn = (sn.get("res") or sn.get("fn") or "") if sn["k"] == "Call" else ""
+                if fn.endswith("Try>::branch") or fn.endswith("Try::branch"):
+                    v = self.eval(tb, sn["args"][0], env, depth)
+                    if isinstance(v, Agg) and v.var in ("Ok", "Some"):
+                        continue
+                    if isinstance(v, Agg) and v.var in ("Err", "None"):
+                        return v
+                    rest = self._eval_stmts(tb, blk, k, dict(env), depth)
+                    return self._ite(Cond("sym", "isResidual(%s)" % vkey(v)), Sym("residual(%s)" % vkey(v)), rest)
+            # other statements: locals assigned anywhere inside lose their known value
+            for x, m in tb.walk(i):
+                if m["k"] in ("Assign", "AssignOp"):
+                    li, ln = tb.e(m["l"])
+                    while ln["k"] in ("Deref", "Field", "Index") and "e" in ln:
+                        li, ln = tb.e(ln["e"])
+                    if ln["k"] in ("Var", "Upvar") and ln["id"] in env:
+                        try:
+                            r = vkey(self.eval(tb, m["r"], env, depth))
+                        except Unsupported:
+                            r = "?"
+                        env[ln["id"]] = Sym("mut(%s;%s%s)" % (vkey(env[ln["id"]]), m.get("op", "="), r))
+                elif m["k"] == "Return" and not self._noise(m):
+                    raise Unsupported("early return nested in a statement at line %s" % (m.get("sp") or {}).get("l"))
+                elif m["k"] == "Borrow" and m.get("mut"):
+                    bi, bn = tb.e(m["e"])
+                    if bn["k"] in ("Var", "Upvar") and bn["id"] in env and not isinstance(env[bn["id"]], (Obj, Slice)):
+                        env[bn["id"]] = Sym("mutborrowed(%s)" % vkey(env[bn["id"]]))
         if blk.get("expr") is not None:
             return self.eval(tb, blk["expr"], env, depth)
         return Sym("unit")
@@ -992,26 +1076,35 @@ class Evaluator:
         self._collect(tb, tb.root, env, depth, follow, out, tuple(guard), path)
         return out
 
+    def _collect_block(self, tb, blk, env, depth, follow, out, guard, path):
+        for s in blk["stmts"]:
+            st = tb.stmts[s]
+            if st["k"] == "let":
+                if st.get("init") is not None:
+                    self._collect(tb, st["init"], env, depth, follow, out, guard, path)
+                    try:
+                        v = self.eval(tb, st["init"], env, depth)
+                    except Unsupported:
+                        v = Sym("unsupported")
+                    self.bind(st["pat"], v, env)
+            else:
+                self._collect(tb, st["e"], env, depth, follow, out, guard, path)
+        if blk.get("expr") is not None:
+            self._collect(tb, blk["expr"], env, depth, follow, out, guard, path)
+
     def _collect(self, tb, i, env, depth, follow, out, guard, path):
         i, n = tb.e(i)
         k = n["k"]
         if k == "Block":
             blk = tb.blocks[n["b"]]
+            outer = env
             env = dict(env)
-            for s in blk["stmts"]:
-                st = tb.stmts[s]
-                if st["k"] == "let":
-                    if st.get("init") is not None:
-                        self._collect(tb, st["init"], env, depth, follow, out, guard, path)
-                        try:
-                            v = self.eval(tb, st["init"], env, depth)
-                        except Unsupported:
-                            v = Sym("unsupported")
-                        self.bind(st["pat"], v, env)
-                else:
-                    self._collect(tb, st["e"], env, depth, follow, out, guard, path)
-            if blk.get("expr") is not None:
-                self._collect(tb, blk["expr"], env, depth, follow, out, guard, path)
+            try:
+                self._collect_block(tb, blk, env, depth, follow, out, guard, path)
+            finally:
+                for kk in outer:
+                    if env.get(kk) is not outer[kk]:
+                        outer[kk] = env[kk]
             return
         if k == "If":
             sp = n.get("sp", {})
@@ -1039,22 +1132,44 @@ class Evaluator:
                             "has_else": n.get("else") is not None, "node": i, "tb": tb})
             env_t = dict(env)
             env_t.update(binds)
+            env_e = dict(env)
             g2 = guard + ((ckey(c),) if not followed else ())
             self._collect(tb, n["then"], env_t, depth, follow, out, g2, path)
             if n.get("else") is not None:
-                self._collect(tb, n["else"], env, depth, follow, out, guard + (("not " + ckey(c)),), path)
+                self._collect(tb, n["else"], env_e, depth, follow, out, guard + (("not " + ckey(c)),), path)
+            for kk in list(env):
+                if env_t.get(kk) is not env[kk] or env_e.get(kk) is not env[kk]:
+                    env[kk] = Sym("ite(%s,%s,%s)" % (ckey(c), vkey(env_t.get(kk)), vkey(env_e.get(kk))))
             return
         if k == "Match":
             try:
                 v = self.eval(tb, n["scrut"], env, depth)
             except Unsupported:
                 v = Sym("unsupported")
+            armenvs = []
             for a in n["arms"]:
                 arm = tb.arms[a]
                 c, binds = self.pat_cond(arm["pat"], v, env)
                 env2 = dict(env)
                 env2.update(binds)
+                if arm.get("guard") is not None:
+                    try:
+                        c = self.logic("and", c, self.as_cond(self.eval(tb, arm["guard"], env2, depth)))
+                    except Unsupported:
+                        c = self.logic("and", c, Cond("sym", "guard?"))
+                if isinstance(c, Cond) and c.op == "false":
+                    continue  # first-match semantics on decided patterns
                 self._collect(tb, arm["body"], env2, depth, follow, out, guard + (ckey(c),), path)
+                armenvs.append((c, env2))
+                if isinstance(c, Cond) and c.op == "true":
+                    break
+            for kk in list(env):
+                ch = [(c, e2[kk]) for c, e2 in armenvs if e2.get(kk) is not env[kk]]
+                if ch:
+                    if len(armenvs) == 1 and isinstance(armenvs[0][0], Cond) and armenvs[0][0].op == "true":
+                        env[kk] = ch[0][1]
+                    else:
+                        env[kk] = Sym("phi(%s|%s)" % (vkey(env[kk]), ";".join("%s:%s" % (ckey(c), vkey(x)) for c, x in ch)))
             return
         if k in ("Assign", "AssignOp"):
             try:
@@ -1065,6 +1180,11 @@ class Evaluator:
             sp = n.get("sp", {})
             out.append({"assign": (n.get("op", "="), vkey(lhs)[:200], vkey(rhs)[:200]), "guard": guard,
                         "where": "%s:%s" % (sp.get("f"), sp.get("l")), "fn": path})
+            li, ln = tb.e(n["l"])
+            while ln["k"] == "Deref":
+                li, ln = tb.e(ln["e"])
+            if ln["k"] in ("Var", "Upvar") and ln["id"] in env:
+                env[ln["id"]] = rhs if k == "Assign" else Sym("%s(%s,%s)" % (n.get("op", "?").replace("Assign", ""), vkey(lhs), vkey(rhs)))
         if k == "Call" and follow and (n.get("res") or n.get("fn")) in self.f.fns and follow(n.get("res") or n.get("fn")) \
                 and (n.get("res") or n.get("fn")) != path:
             callee = n.get("res") or n.get("fn")
